@@ -519,6 +519,43 @@ def r_window(F, V):
         else:
             R.inst(p, "%d (partial op, later callback) pairs, each guarded/fresh" % npairs if npairs else "partial ops and callbacks present, no callback after a partial op",
                    "ok", True, where(body), pairs=npairs)
+    # whole-table installs: replacing the table of an argument (mem::swap / mem::replace / ptr::write / `*self = ..`) must
+    # not be followed by user *logic* callbacks (hasher, eq, clone, closures) unless a live guard covers the table:
+    # "a hasher panic while the table is being grown into a new allocation leaves the contents unchanged"
+    ninst = 0
+    for p, body in F.bodies.items():
+        if not p.startswith("raw::"):
+            continue
+        installs = []
+        for i, t in body.calls():
+            cp = callee_path(t) or ""
+            if cp in ("core::mem::swap", "core::mem::replace", "core::ptr::write") and any(x == INNER or x.startswith("raw::RawTable<") for x in t["f"].get("substs", [])):
+                r, path = operand_deep_root(body, t["args"][0])
+                if r is not None and body.is_arg(r):
+                    installs.append((i, r, cp))
+        if not installs:
+            continue
+        cbs = [(j, d) for (j, d) in V.callback_sites(body) if not V.is_destructor_site(body, j)]
+        gds = guard_defs(body)
+        for (i, r, cp) in installs:
+            ninst += 1
+            after = set()
+            for x in body.nsucc[i]:
+                after |= body.reachable_from(x)
+            bad = None
+            for (j, d) in cbs:
+                if j in after:
+                    covered = any(r in g["roots"] and guard_live_at(body, g, j) for g in gds)
+                    if not covered:
+                        bad = (j, d)
+            key = "%s|install@%s" % (p, cp.split("::")[-1])
+            if bad:
+                R.violation(key, body, "the table of an argument is replaced wholesale (%s) and user code (%s) can still run afterwards with no guard covering it: a hasher/clone panic no longer leaves the original contents in place" % (cp, bad[1]),
+                            line=line_of(body, bb=bad[0]), installed_at=where(body, bb=i))
+                R.inst(key, "callback after whole-table install", "violation", True, where(body, bb=i))
+            else:
+                R.inst(key, "no unguarded user-logic callback can run after the table is installed", "ok", True, where(body, bb=i))
+    R.info["whole-table installs into an argument"] = ninst
     R.info["callback sites in all bodies"] = sum(len(V.callback_sites(b)) for b in F.bodies.values())
     R.info["bodies with a callback site"] = sum(1 for b in F.bodies.values() if V.callback_sites(b))
     R.info["primitive partial-operation sites"] = sum(len(partial_op_sites(V, b)) for b in F.bodies.values())
